@@ -23,8 +23,11 @@ type obs struct {
 	reenc   [4]byte // re-encoding the NoValidate result: WKB, WKT, GeoJSON, TWKB
 	redec   [4]byte // decoding that output again (NoValidate)
 	rewkb   string  // eq/ne: decode(AsBinary(g)) has the same structural dump as g
-	dump    string  // structural dump (WKB inputs) or "T:<type tag>"
+	dump    string  // structural dump of the NoValidate result
 	msg     string  // first panic message / death reason
+	model   string  // the input in the alphabet of the format's model (WKT: characters and number
+	// symbols; GeoJSON: tree tokens), "-" when the bytes are the model's input or the input is
+	// outside the model's alphabet
 }
 
 func (o obs) fields() string {
@@ -40,6 +43,9 @@ func (o obs) fields() string {
 	if o.msg == "" {
 		o.msg = "-"
 	}
+	if o.model == "" {
+		o.model = "-"
+	}
 	for i := range o.reenc {
 		if o.reenc[i] == 0 {
 			o.reenc[i] = '-'
@@ -52,8 +58,8 @@ func (o obs) fields() string {
 	if len(msg) > 160 {
 		msg = msg[:160]
 	}
-	return fmt.Sprintf("%c\t%d\t%c\t%d\t%c\t%s\t%d\t%s\t%s\t%s\t%s\t%s",
-		o.nv, o.nvAlloc, o.v, o.vAlloc, o.valid, o.adapt, o.adAlloc, string(o.reenc[:]), string(o.redec[:]), o.rewkb, o.dump, msg)
+	return fmt.Sprintf("%c\t%d\t%c\t%d\t%c\t%s\t%d\t%s\t%s\t%s\t%s\t%s\t%s",
+		o.nv, o.nvAlloc, o.v, o.vAlloc, o.valid, o.adapt, o.adAlloc, string(o.reenc[:]), string(o.redec[:]), o.rewkb, o.dump, msg, o.model)
 }
 
 var ms1, ms2 runtime.MemStats
@@ -112,11 +118,6 @@ func (o *obs) note(msg string) {
 	}
 }
 
-var typeTags = map[geom.GeometryType]string{
-	geom.TypePoint: "P", geom.TypeLineString: "L", geom.TypePolygon: "Y", geom.TypeMultiPoint: "MP",
-	geom.TypeMultiLineString: "ML", geom.TypeMultiPolygon: "MY", geom.TypeGeometryCollection: "GC",
-}
-
 // observe runs every entry point on one input. The watchdog clock runs only while the decoders
 // (and the validation of their result) run: the re-encoding that follows is the harness's own
 // work and some encoders are slow on deep nesting (not this property's concern).
@@ -145,6 +146,17 @@ func observe(format string, data []byte, clock *atomicTime) obs {
 	runtime.ReadMemStats(&ms2)
 	o.adAlloc = ms2.TotalAlloc - ms1.TotalAlloc
 	clock.set(time.Time{})
+	// the input as the format's model reads it (harness's own work, after the watchdog window)
+	switch format {
+	case "wkt":
+		if mt, ok := toModel(string(data)); ok {
+			o.model = mt
+		}
+	case "json":
+		if jt, ok := jsonTokens(data); ok {
+			o.model = jt
+		}
+	}
 	if o.nv != 'o' {
 		return o
 	}
@@ -165,11 +177,7 @@ func observe(format string, data []byte, clock *atomicTime) obs {
 	if c != 'o' {
 		d = "DUMP-PANIC"
 	}
-	if format == "wkb" {
-		o.dump = d
-	} else {
-		o.dump = "T:" + typeTags[g.Type()]
-	}
+	o.dump = d
 	var enc [4][]byte
 	o.reenc[0], m = call(func() error { enc[0] = g.AsBinary(); return nil })
 	o.note(prefix("AsBinary: ", m))
